@@ -12,4 +12,4 @@ RULES = {"C08.a", "C08.b", "C08.c", "C08.d", "C08.e"}
 
 def check(ctx):
     classes.analyze(ctx, RULES)
-    sharing.analyze(ctx, {"C08.e"})
+    sharing.analyze(ctx, {"C08.e", "C02.f"})
